@@ -381,3 +381,21 @@ Print Assumptions C13_every_window_row_once.
 Print Assumptions C13_item_positions.
 Print Assumptions C13_every_sheet_has_an_id.
 Print Assumptions C13_window_rows_nonvacuous.
+
+(** Source tie (regenerated on every run).  The running sums the full report prints (get_crypto_in_running_sum,
+    ..._in_fee_..., ..._out_..., ..._out_fee_..., ..._intra_fee_..., ..._gain_loss_...) computed from the tables the translator
+    reads from the loops of ComputedData.__init__ (Model/GeneratedTie.v [gen_run_*]: the set iterated, no cut, the attribute
+    added to an accumulator that is ZERO before the loop and stored after the addition; interpreter [run_gen] of
+    Model/ComputedGen.v) are the [running] sums of [compute] (cd_in_running, cd_out_running, cd_intra_running, cd_gl_running).
+    An edit that accumulates another attribute (e.g. crypto_taxable_amount for crypto_out_no_fee) or iterates another set
+    makes this theorem stop compiling (Proofs/ComputedGenRunning.v). *)
+From RP2V Require Import Model.GeneratedTie Model.ComputedGen Proofs.ComputedGenRunning.
+Theorem C13_source_tie_running_sums :
+  (forall from_day to_day ins, run_in_gen from_day to_day ins = running i_crypto_in 0 ins) /\
+  (forall from_day to_day ins, run_in_fee_gen from_day to_day ins = running i_crypto_fee 0 ins) /\
+  (forall from_day to_day outs, run_out_gen from_day to_day outs = running o_crypto_out_no_fee 0 outs) /\
+  (forall from_day to_day outs, run_out_fee_gen from_day to_day outs = running o_crypto_fee 0 outs) /\
+  (forall from_day to_day xs, run_intra_fee_gen from_day to_day xs = running x_crypto_fee 0 xs) /\
+  (forall from_day to_day gls, run_gl_gen from_day to_day gls = running g_amt 0 gls).
+Proof. exact running_sums_gen_agree. Qed.
+Print Assumptions C13_source_tie_running_sums.
